@@ -349,7 +349,11 @@ impl<'tcx> Cx<'tcx> {
                 PlaceElem::Field(f, _) => {
                     let n = self.field_name(pty, f);
                     s = format!("{}.{}", s, n);
-                    proj.push(J::Arr(vec![J::s("field"), J::i(f.as_usize()), J::s(n)]));
+                    let base = match pty.ty.kind() {
+                        ty::Adt(def, _) => J::s(self.path(def.did())),
+                        _ => J::Null,
+                    };
+                    proj.push(J::Arr(vec![J::s("field"), J::i(f.as_usize()), J::s(n), base]));
                 }
                 PlaceElem::Index(l) => {
                     s = format!("{}[_{}]", s, l.as_usize());
